@@ -96,10 +96,21 @@ def run_case(ctx, k, rng):
 
     if kind in ("int", "equal") and np.all(dgm == np.round(dgm)):
         try:
-            Ei = float(call(ctx, dgm.astype(np.int64))[0])
+            Ei = float(call(ctx, forms.as_int_dtype(rng, dgm)[0])[0])
             ctx.check("integer barcode == float barcode of the same values", abs(Ei - E) <= tol, int_form=Ei, float_form=E)
         except Exception as e:
             ctx.exception("integer barcode == float barcode of the same values", e)
+    if rng.random() < 0.06:
+        ia, fa_, da = forms.near_limit_int_diagram(rng, int(rng.integers(1, 9)))
+        ctx.set_payload({"dgm": ia, "dtype": da})
+        try:
+            lens = (fa_[:, 1] - fa_[:, 0]).tolist()
+            Ei, Ef, rf = float(call(ctx, ia)[0]), float(call(ctx, fa_)[0]), shannon(lens)
+            ctx.check("narrow integer dtype near its limits == float64 of the same values", abs(Ei - rf) <= 1e-12 * (1 + math.log(len(lens))) and
+                      abs(Ef - rf) <= 1e-12 * (1 + math.log(len(lens))), int_form=Ei, float_form=Ef, ref=rf, dtype=da)
+        except Exception as e:
+            ctx.exception("narrow integer dtype near its limits == float64 of the same values", e, dtype=da)
+        ctx.set_payload({"dgm": dgm, "scenario": scen})
     if scen == 0:  # invariances
         perm = rng.permutation(n)
         Ep = float(call(ctx, dgm[perm])[0])
